@@ -62,7 +62,9 @@ def stepOk (c : Case) (prev : Snap) (op : Op) (o : StepObs) : Bool :=
   | .copy | .deepcopy | .pickle _ =>
     o.snap == prev &&
     (if (fieldVals c prev).all (·.2.isSome) then
-       o.exc == none && o.values == some (fieldVals c prev) && o.flags.contains "fresh" && o.flags.contains "frozen"
+       o.exc == none && o.values == some (fieldVals c prev) && o.flags.contains "fresh" && o.flags.contains "frozen" &&
+       -- and the copy hashes (its own hash cache was carried over or re-created)
+       (!hashReady c prev || o.flags.contains "reshash")
      else true)
   | .evolve _ =>
     -- the values of the result are C12's business; here: frozenness never gets in the way, the original is
@@ -143,7 +145,9 @@ def wf (c : Case) : Bool :=
      match leafOf c nodes with
      | none => false
      | some lf =>
-       C01.wf (effInit c lf.frozen) && callOk (params c.init.run.attrs) c.init.call && layoutWf c)
+       C01.wf (effInit c lf.frozen) && callOk (params c.init.run.attrs) c.init.call && layoutWf c &&
+       -- the state protocol is the one the class logic predicts (never read off the real class)
+       c.gs == predictedGs c nodes)
 
 /-! ### listed known findings -/
 
